@@ -195,11 +195,24 @@ func prepareQuery(ctx context.Context, typ Type, selectionSet *SelectionSet, pre
 			// Only parse args once for a given selection.
 			if !selection.parsed {
 				selection.parsed = true
+				selection.parsedFor = field
 				parsed, err := field.ParseArguments(selection.UnparsedArgs)
 				if err != nil {
 					return NewClientError(`error parsing args for "%s": %s`, selection.Name, err)
 				}
 				selection.Args = parsed
+			} else if selection.parsedFor != field {
+				// The selection is part of a fragment that is applied under several
+				// object types. Its arguments were parsed for another type's field
+				// of this name; the resolver of this field can only be called with
+				// them if it parses them to the same value.
+				parsed, err := field.ParseArguments(selection.UnparsedArgs)
+				if err != nil {
+					return NewClientError(`error parsing args for "%s": %s`, selection.Name, err)
+				}
+				if !reflect.DeepEqual(parsed, selection.Args) {
+					return NewClientError(`field "%s" takes different arguments in the types its fragment is used under`, selection.Name)
+				}
 			}
 
 			selection.ParentType = typ.Name
